@@ -1,6 +1,16 @@
 (* C06 model driver: reads the same case file as drv.c, runs the extracted Gallina model
    (coq/C06/StrDefs.v, [step]) and prints the same canonical lines.  Only glue lives here:
-   parsing, resolving size expressions against the model's own state, printing. *)
+   parsing, resolving size expressions against the model's own state, printing.
+
+   Line format (see harness/C06/drv.c):
+     <k> <op> r=<ret> A=<ptr>,<num>,<mem>,<block size>,<block hex> B=... ev=<events> acc=ok q=<A>;<B>;<c>
+   acc=ok is the constant the correct code gives (the C driver compares every accessor with the
+   fields over whole index ranges); q= is the model's value of the read-only API after the
+   operation: coq/C06/StrAccDefs.v [probe_str k] for both objects (a_str_ptr, a_str_len, a_str_mem,
+   a_str_at_, a_str_at, a_str_of at indices derived from k, a_utf_len with and without stop) and
+   [probe_cmp k] (a_str_cmp_ on a prefix of A against B).  Pointers: '-' NULL, offset into the
+   block, 'F' undefined pointer arithmetic in the model; 'x' = not called.
+   "mk ..." (how the C objects are built) does not concern the model; "catv" is "catf". *)
 open Strmodel
 
 let rec pos_of_int i =
@@ -80,6 +90,19 @@ let add_ev = function
 
 let tgt_of tok = if tok = "B" then TB else TA
 
+let aptr_s = function ANull -> "-" | AOff o -> string_of_int (int_of_n o) | AFault -> "F"
+
+let add_probe k (s : str) =
+  let p = probe_str k s in
+  Buffer.add_string buf
+    (Printf.sprintf "%s,%d,%d,%s,%s,%s," (aptr_s p.q_ptr) (int_of_n p.q_len) (int_of_n p.q_mem)
+       (match p.q_at_ with None -> "x" | Some a -> aptr_s a) (aptr_s p.q_at) (aptr_s p.q_of));
+  match p.q_utf with
+  | None -> Buffer.add_string buf "x,x,x"
+  | Some (NRet (c1, Some st), NRet (c0, None)) ->
+    Buffer.add_string buf (Printf.sprintf "%d,%d,%d" (int_of_n c1) (int_of_n st) (int_of_n c0))
+  | Some _ -> Buffer.add_string buf "F,F,F"
+
 let () =
   let st = ref (m_init []) in
   let k = ref 0 in
@@ -96,6 +119,7 @@ let () =
          | "sched" ->
            let s = if Array.length tok > 1 then tok.(1) else "" in
            st := { !st with sch = List.init (String.length s) (fun i -> s.[i] = '1') }
+         | "mk" -> ()
          | "end" -> print_string "end live=0\n"
          | o ->
            let m = !st in
@@ -129,7 +153,7 @@ let () =
              | "cmps" -> Some (OCmps (t, data 2 3))
              | "cat" -> Some (OCat (t, tok.(2) = "1"))
              | "cat_" -> Some (OCat_ (t, tok.(2) = "1"))
-             | "catf" -> Some (OCatf (t, data 3 4))
+             | "catf" | "catv" -> Some (OCatf (t, data 3 4))
              | "rtrim" -> Some (ORtrim (t, set 2))
              | "rtrim_" -> Some (ORtrim_ (t, set 2))
              | "ltrim" -> Some (OLtrim (t, set 2))
@@ -159,6 +183,16 @@ let () =
               Buffer.add_string buf " ev=";
               if evs = [] then Buffer.add_char buf '-'
               else List.iteri (fun i e -> if i > 0 then Buffer.add_char buf ','; add_ev e) evs;
+              let kn = n_of_int (!k - 1) in
+              Buffer.add_string buf " acc=ok q=";
+              add_probe kn m'.sA;
+              Buffer.add_char buf ';';
+              add_probe kn m'.sB;
+              Buffer.add_char buf ';';
+              (match probe_cmp kn m' with
+               | None -> Buffer.add_char buf 'x'
+               | Some None -> Buffer.add_char buf 'F'
+               | Some (Some z) -> Buffer.add_string buf (string_of_int (int_of_z z)));
               Buffer.add_char buf '\n');
            print_string (Buffer.contents buf)
        end
